@@ -46,6 +46,7 @@ type runner struct {
 	g                    *gen
 	gk                   *gen             // index-key stream (numkey.go), its own random stream
 	nk                   *hcl.EvalContext // the scope stand-alone traversals are applied to (numkey.go)
+	gj                   *jtGen           // JSON template documents (jsontmpl.go), its own random stream
 	nameTable            map[string]string
 }
 
@@ -563,7 +564,20 @@ func expandedAgrees(f function.Function, name string, vals []cty.Value, lastErr,
 			_, ev := it.Element()
 			ex = append(ex, ev.WithMarks(marks))
 		}
-		problem, panicked := applyStatic(f, name, ex, otherErr, whole, wd)
+		cmp := whole
+		if last.LengthInt() == 0 && len(marks) > 0 && !wd.HasErrors() {
+			// an EMPTY marked collection has no element to carry its marks: FunctionCallExpr.Value puts
+			// them on the call's result instead (fix 663246c); the static application cannot know them
+			u, wm := whole.Unmark()
+			rest := cty.NewValueMarks()
+			for m := range wm {
+				if _, fromColl := marks[m]; !fromColl {
+					rest[m] = struct{}{}
+				}
+			}
+			cmp = u.WithMarks(rest)
+		}
+		problem, panicked := applyStatic(f, name, ex, otherErr, cmp, wd)
 		return !panicked && problem == ""
 	}
 	return wd.HasErrors()
@@ -1341,7 +1355,7 @@ func scopesFor(seed uint64, n int) []*hcl.EvalContext {
 
 func run(cfg *hv.RunCfg) error {
 	rep := hv.NewReport("C20", cfg.Seed)
-	rep.Rule = "hand corpus, then generated: (1) traversal-shaped expression texts (attribute, string/number/legacy/bool/null index, splats, expression keys, newlines and comments between steps, keyword and undefined roots) typed for scopes from hv.EvalGen (1-3 frames, every cty kind, nulls, unknowns, marks), plain or wrapped (parentheses, template, object key, tuple element, call argument), plus arbitrary expressions of the evaluation generator; (2) texts for the stand-alone traversal parsers (identifiers incl. keywords/unicode/dashes, steps, splats, whitespace, mutated garbage); (2b) traversal texts over a fixed scope with 1100-element lists whose index keys range over the whole number-literal grammar (leading zeros, fractions, exponents, integers beyond int64 / float64 / 512 bits, near misses 0x10 1_000 1. +1), legacy .N indexes, string keys with escapes and template-looking content, whitespace/newlines/comments inside brackets, splats; every stand-alone text is also read by a reference parser written in the harness (acceptance, step names, key values from the digits) and each of its traversals is applied to that scope against the evaluation of the expression; (3) tuple/object/call expressions over the harness functions (with `...`), native and JSON; (4) cty types of the constraint language nested to depth 4 with attribute names from identifiers incl. keywords, dashes, unicode and (10%) non-identifiers, and type-expression texts with deliberate errors; non-trivial = traversal with a step / non-empty list, map or call / type of depth >= 1; distinct by SHA-256 of class, text and scope"
+	rep.Rule = "hand corpus, then generated: (1) traversal-shaped expression texts (attribute, string/number/legacy/bool/null index, splats, expression keys, newlines and comments between steps, keyword and undefined roots) typed for scopes from hv.EvalGen (1-3 frames, every cty kind, nulls, unknowns, marks), plain or wrapped (parentheses, template, object key, tuple element, call argument), plus arbitrary expressions of the evaluation generator; (2) texts for the stand-alone traversal parsers (identifiers incl. keywords/unicode/dashes, steps, splats, whitespace, mutated garbage); (2b) traversal texts over a fixed scope with 1100-element lists whose index keys range over the whole number-literal grammar (leading zeros, fractions, exponents, integers beyond int64 / float64 / 512 bits, near misses 0x10 1_000 1. +1), legacy .N indexes, string keys with escapes and template-looking content, whitespace/newlines/comments inside brackets, splats; every stand-alone text is also read by a reference parser written in the harness (acceptance, step names, key values from the digits) and each of its traversals is applied to that scope against the evaluation of the expression; (3) tuple/object/call expressions over the harness functions (with `...`), native and JSON; (3b) JSON documents whose object keys, object values, array elements and call-like strings range over the whole template sub-language (`${}` with strip markers, `%{ if }`/`%{ else }`/`%{ for }` directives incl. keys that are only a directive and keys without any `${`, the escapes `$${` `%%{`, lone `$` `%`, literal text around sequences, null/undefined/unknown/marked/tuple interpolations, malformed sequences, repeated keys), evaluated in a fixed scope and with a nil context: whole against ExprList/ExprMap/ExprCall parts at every level, whole and every part against a reference reading of the JSON text (encoding/json + a template reader written in the harness), Variables() of the whole against the parts and the reference; (4) cty types of the constraint language nested to depth 4 with attribute names from identifiers incl. keywords, dashes, unicode and (10%) non-identifiers, and type-expression texts with deliberate errors; non-trivial = traversal with a step / non-empty list, map or call / type of depth >= 1; distinct by SHA-256 of class, text and scope"
 	r := hv.NewRng(cfg.Seed, 20)
 	x := &runner{rep: rep, g: &gen{r: r, feat: map[string]int{}}, nameTable: map[string]string{},
 		cfTrav:  &hv.CaseFile{Dir: cfg.Out, Name: "c20trav", Imports: importsStatic, Ctype: "tcase", Checker: "check_trav_cases"},
@@ -1349,6 +1363,7 @@ func run(cfg *hv.RunCfg) error {
 		cfT:     &hv.CaseFile{Dir: cfg.Out, Name: "c20type", Imports: importsType, Ctype: "tycase", Checker: "check_type_cases", Extras: [][2]string{{"skipped", "skipped_type_cases"}}},
 	}
 	x.gk = &gen{r: hv.NewRng(cfg.Seed, 2020), feat: x.g.feat}
+	x.gj = &jtGen{r: hv.NewRng(cfg.Seed, 2030), feat: x.g.feat}
 
 	if cfg.Replay != "" {
 		b, err := os.ReadFile(cfg.Replay)
@@ -1358,7 +1373,7 @@ func run(cfg *hv.RunCfg) error {
 		class, text := "", string(b)
 		if i := strings.IndexByte(text, '\n'); i >= 0 {
 			switch text[:i] {
-			case "trav", "standalone", "parts", "jsonparts", "jsoncall", "type", "typeexpr":
+			case "trav", "standalone", "parts", "jsonparts", "jsoncall", "jsontmpl", "type", "typeexpr":
 				class, text = text[:i], text[i+1:]
 			}
 		}
@@ -1383,6 +1398,9 @@ func run(cfg *hv.RunCfg) error {
 		}
 		if class == "" || class == "jsoncall" {
 			x.jsonCallCase(text)
+		}
+		if class == "" || class == "jsontmpl" {
+			x.jsonTmplCase(text)
 		}
 		if class == "type" {
 			ty, err := ctyjson.UnmarshalType([]byte(text))
@@ -1430,6 +1448,9 @@ func run(cfg *hv.RunCfg) error {
 	}
 	for i, t := range handJSON {
 		x.jsonPartsCase(t, scopes[i%len(scopes)])
+	}
+	for _, t := range handJSONTmpl {
+		x.jsonTmplCase(t)
 	}
 	for _, ty := range handTypes {
 		x.typeCase(ty)
@@ -1483,6 +1504,10 @@ func run(cfg *hv.RunCfg) error {
 			x.jsonCallCase(pt)
 		}
 		x.jsonPartsCase(x.g.jsonText(2), ctx)
+		// (3b) JSON documents over the whole template sub-language, fixed scope and nil context (jsontmpl.go)
+		jdoc := x.gj.doc()
+		x.jtFeatures(jdoc)
+		x.jsonTmplCase(jdoc)
 		// (4) types
 		x.typeCase(x.g.genTopType())
 		if r.Chance(0.5) {
